@@ -733,6 +733,12 @@ func buildResponse(sc *Scenario, v *BackendView) *builtResponse {
 			if err != nil {
 				body, _ = protojson.Marshal((&ErrSpec{Code: errSpec.Code, Message: errSpec.Message}).statusProto())
 			}
+			if b.CompressError && comp != "" {
+				// an error body is an HTTP body like any other: a server (or the middleware in front of
+				// it) may compress it when the request allowed that
+				out.Header.Set("Content-Encoding", comp)
+				body = compressBytes(comp, body)
+			}
 			out.Body = body
 			return out
 		}
